@@ -105,13 +105,22 @@ theorem ternary_rns_consistent (U : Uniform) (hU : U.Contract) {xof : Xof} (hx :
       c = moduli.map (fun (q : Nat) => vs.map fun v => (v % (q : Int)).toNat) ∧ ByteSt s' :=
   ternary_spec U hU hx hs hq h
 
-/-- error samples: one value `|v_i| ≤ 21` per coefficient, component `j` holds `v_i mod q_j` (moduli above the bound) -/
+/-- error samples (after the repair of the small-modulus underflow): one value `|v_i| ≤ 21` per coefficient, component `j`
+    holds `v_i mod q_j` -- for EVERY modulus `q_j ≥ 2`, also those not above the error bound -/
 theorem error_rns_consistent {xof : Xof} (hx : ByteXof xof) {s s' : St} (hs : ByteSt s)
-    {n : Nat} {moduli : List Nat} {c : List (List Nat)} (hq : ∀ q ∈ moduli, 21 < q)
+    {n : Nat} {moduli : List Nat} {c : List (List Nat)} (hq : ∀ q ∈ moduli, 2 ≤ q)
     (h : centeredBinomial xof s n moduli = .ok (c, s')) :
     ∃ vs : List Int, vs.length = n ∧ (∀ v ∈ vs, -21 ≤ v ∧ v ≤ 21) ∧
       c = moduli.map (fun (q : Nat) => vs.map fun v => (v % (q : Int)).toNat) ∧ ByteSt s' :=
   centeredBinomial_spec hx hs hq h
+
+/-- the encoding never refuses and is the canonical residue, whatever the value and the modulus `q ≥ 1` -/
+theorem error_encoding_total {q : Nat} (hq : 0 < q) (v : Int) : encError q v = .ok (v % (q : Int)).toNat :=
+  encError_eq hq v
+
+example : encError 5 (-7) = .ok 3 := by rfl
+example : encError 5 (-10) = .ok 0 := by rfl
+example : encError 2 21 = .ok 1 := by rfl
 
 /-- uniform samples: component `j` has `n` coefficients below `q_j` (under the `Uniform` contract) -/
 theorem uniform_below_modulus (U : Uniform) (hU : U.Contract) {xof : Xof} (hx : ByteXof xof) {s s' : St} (hs : ByteSt s)
